@@ -214,8 +214,15 @@ func (ex *Exec) callIntrinsic(fr *frame, pos token.Pos, fn *ssa.Function, args [
 		return nil
 	case "Observe":
 		label := ex.labelOf(args[0])
-		ex.Observed[label] = append(ex.Observed[label], ex.render(args[1]))
+		ex.pathObs = append(ex.pathObs, obsEntry{label, args[1]})
 		return nil
+	case "Bound":
+		if ex.Tier == "thorough" {
+			return args[1]
+		}
+		return args[0]
+	case "Thorough":
+		return b.Bool(ex.Tier == "thorough")
 	case "Protect":
 		what := ex.labelOf(args[0])
 		it := args[1].(iface)
@@ -228,6 +235,26 @@ func (ex *Exec) callIntrinsic(fr *frame, pos token.Pos, fn *ssa.Function, args [
 		return nil
 	}
 	panic(ex.unsupported("verifrt." + name))
+}
+
+// renderUnder renders v with the model substituted for the draw variables.
+func (ex *Exec) renderUnder(v value, m map[string]interface{}) string {
+	ex.renderModel = m
+	defer func() { ex.renderModel = nil }()
+	var out string
+	func() {
+		defer func() {
+			if r := recover(); r != nil {
+				if _, ok := r.(pathEnd); ok {
+					out = "?unsupported"
+					return
+				}
+				panic(r)
+			}
+		}()
+		out = ex.render(v)
+	}()
+	return out
 }
 
 // render mirrors verifrt.Render for concrete values.
@@ -262,12 +289,36 @@ func (ex *Exec) renderTyped(t types.Type, v value) string {
 		if f, ok := fpConstVal(x); ok {
 			return fmt.Sprintf("f:%016x", math.Float64bits(f))
 		}
+		if ex.renderModel != nil {
+			if r, ok := smt.Eval(x, ex.renderModel); ok {
+				switch rv := r.(type) {
+				case *big.Int:
+					return rv.String()
+				case bool:
+					return strconv.FormatBool(rv)
+				}
+			}
+		}
 		return "?sym"
 	case *Str:
-		if c, ok := x.concrete(); ok {
-			return fmt.Sprintf("s:%x", c)
+		if x.opaque {
+			return "?opaque"
 		}
-		return "?symstr"
+		var sb []byte
+		for _, t := range x.b {
+			if c, ok := t.ConstInt(); ok {
+				sb = append(sb, byte(c.Int64()))
+				continue
+			}
+			if ex.renderModel != nil {
+				if r, ok := smt.Eval(t, ex.renderModel); ok {
+					sb = append(sb, byte(r.(*big.Int).Int64()))
+					continue
+				}
+			}
+			return "?symstr"
+		}
+		return fmt.Sprintf("s:%x", string(sb))
 	case []value:
 		parts := make([]string, len(x))
 		for i := range x {
